@@ -1,9 +1,9 @@
 #!/bin/bash
 # run every registered check once (tier from $1, default quick); prints one summary line per check
-cd /verif
+cd "$(dirname "$0")/.."
 tier=${1:-quick}
 rc=0
-for p in $(/venv/bin/python -c "import json;print(' '.join(c['property_id'] for c in json.load(open('/verif/MANIFEST.json'))['checks']))"); do
+for p in $(/venv/bin/python -c "import json;print(' '.join(c['property_id'] for c in json.load(open('MANIFEST.json'))['checks']))"); do
   out=$(bin/check $p $tier 2>&1); code=$?
   echo "$out" | grep -E "^\[$p\]|^VIOLATION" | cut -c1-220
   if [ $code -ne 0 ]; then rc=1; fi
